@@ -6,6 +6,18 @@ import os
 HERE = os.path.dirname(os.path.dirname(os.path.abspath(__file__)))
 E1 = 'bounded symbolic execution of the real elementpath code with CrossHair (z3 decides every path; "Confirmed over all paths" = exhaustive within the stated bound), counterexamples replayed on the plain package'
 CHECKS = {
+    'C06': dict(
+        text='xs:integer arithmetic (+ - * unary-, abs, idiv, mod, the identity a = (a idiv b)*b + (a mod b), FOAR0001 on zero divisors) is '
+             'executed symbolically through token.evaluate with both operands as z3 integers: dividend over ALL integers for each of 8 '
+             'constant divisors, both operands symbolic in [-9,9], ring operations over Z x Z. The rounding rule of helpers.round_number, '
+             'fn:round (precision absent/0/1/2/-1/-2) and fn:round-half-to-even is decided for ALL rationals by translating the current '
+             'source to z3 Real/Int terms with the documented contract of Decimal.quantize/round as the only stubs. Bounded verification, '
+             'not proof.',
+        note='Trusted: CrossHair models of int, z3 (two versions diffed on the E2 queries), the AST->z3 translator, contract stubs listed in '
+             'the evidence. Out (bug-hunting only, never counted): decimal and double operands through the evaluator, IEEE rounding of '
+             'inexact doubles, xs:float clamps, overflow to INF.',
+        technique='SMT-based symbolic execution (CrossHair/z3) of the operator methods + AST->z3 translation of rounding kernels with contract stubs',
+        design='DESIGN.md §4 C06'),
     'C08': dict(
         text='Every sequence function/operator template is executed symbolically through token.evaluate with sequence items, '
              'positions and lengths as z3 variables (items unbounded integers, sequences of length 0..3) and compared with the F&O '
